@@ -347,7 +347,10 @@ UnionOKP(P, Ps) == UnionTypesOK(P, Ps) /\ UnionRestOK(P, Ps) /\ UnionVectorsOK(P
 (*    destructor ~class, a synthesised getter/setter get_/set_<element>,   *)
 (*    an upcast Derived::upcast_to_Base, a downcast                        *)
 (*    Base::downcast_to_Derived, members and nested types are scoped by    *)
-(*    their class.                                                         *)
+(*    their class, a pointer / const type is named after the type it       *)
+(*    wraps (so a stale wrapped_type that lands on another live type is    *)
+(*    caught; a pointer to a type the builder removed again, e.g. a        *)
+(*    function type, wraps 0).                                             *)
 ElemFields(r) == <<r.getter, r.setter, r.has, r.clear, r.del, r.ins, r.getkey, r.len>>
 OwnerViol(db) ==
   UNION {{<<"element", t, e>> : e \in {x \in SeqRange(db.t[t].elems) \cap EIx(db) :
@@ -378,6 +381,10 @@ BuilderNameViol(db) ==
         LET d == db.t[x].derivs[k] IN
         d.down \in FIx(db) /\ d.base \in TIx(db) /\
         (db.f[d.down].cls # d.base \/ db.f[d.down].n # "downcast_to_" \o db.t[x].n)}}
+  \cup {<<"pointer type name", t>> : t \in {x \in TIx(db) : db.t[x].ptr /\ db.t[x].wrapped \in TIx(db) /\
+        db.t[db.t[x].wrapped].tn # "" /\ db.t[x].tn # db.t[db.t[x].wrapped].tn \o " *"}}
+  \cup {<<"const type name", t>> : t \in {x \in TIx(db) : db.t[x].cst /\ db.t[x].wrapped \in TIx(db) /\
+        db.t[db.t[x].wrapped].tn # "" /\ db.t[x].tn # db.t[db.t[x].wrapped].tn \o " const"}}
   \cup {<<"element scope", t>> : t \in {x \in TIx(db) : \E e \in SeqRange(db.t[x].elems) \cap EIx(db) :
         db.e[e].sn # db.t[x].sn \o "::" \o db.e[e].n}}
   \cup {<<"make_seq scope", t>> : t \in {x \in TIx(db) : \E q \in SeqRange(db.t[x].mseqs) \cap SIx(db) :
